@@ -46,22 +46,26 @@ theorem confOf_none (e : Env) (chain : List Nat) (i : Nat) (h : i ∉ chainTxs e
     exact (mem_chainTxs e chain i).mpr ⟨x, hx, hxi⟩
 
 /-- **the snapshot at any block of a replayed chain.** `g`: a base state without keys; the chain `l1 ++ l2` (block
-ids, oldest first) replays as a run of admitted transactions; `confH` gives every transaction of the chain the height of
-its block; `hB` separates `l1` (heights ≤ `hB`) from `l2` (heights > `hB`); on top, a run `pend` of pending
-transactions, none of them confirmed in `l1`. Then the snapshot at `hB` on any state `S` showing that view, with that
-pool, reads every key as the replay of `l1` alone does. -/
-theorem snapshot_chain_core (e : Env) (hids : EnvIds e) (g : St) (l1 l2 : List Nat) (confH : Nat → Option Nat)
-    (hB : Nat) (pend : List Nat) (S : St)
+ids, oldest first) replays as a run of admitted transactions; `confH` confirms every writer of `key` in `l1` at or
+below `hB` and every writer of `key` in `l2` above `hB`; on top, ANY run `pend` of pending transactions (a writer of the
+key confirmed in `l1` cannot be among them: `writer_once`). Then the snapshot at `hB` on any state `S` showing that
+view, with that pool, reads `key` as the replay of `l1` alone does. -/
+theorem snapshot_chain_writers (e : Env) (hids : EnvIds e) (g : St) (l1 l2 : List Nat) (confH : Nat → Option Nat)
+    (hB : Nat) (pend : List Nat) (S : St) (key : String)
     (hg : ∀ key, curVer g key = none)
     (hvalid : RunV e (chainTxs e (l1 ++ l2)) (curVer g))
-    (hconfH : ∀ b ∈ l1 ++ l2, ∀ i ∈ (e.block b).txs, confH i = some (e.block b).height)
-    (hlow : ∀ b ∈ l1, (e.block b).height ≤ hB) (hhigh : ∀ b ∈ l2, hB < (e.block b).height)
+    (hlowH : ∀ i ∈ chainTxs e l1, writesKey e key i = true → ∃ bh, confH i = some bh ∧ bh ≤ hB)
+    (hhighH : ∀ i ∈ chainTxs e l2, writesKey e key i = true → ∃ bh, confH i = some bh ∧ hB < bh)
     (hpool : S.pool = pend)
     (hrun : RunV e pend (curVer (replayChain e (l1 ++ l2) g)))
     (hview : curVer S = runV e pend (curVer (replayChain e (l1 ++ l2) g)))
-    (hfresh : ∀ i ∈ pend, i ∉ chainTxs e l1)
-    (key : String) (fuel : Nat) (hfuel : nWrites e (chainTxs e l2 ++ pend) key + 1 ≤ fuel) :
+    (fuel : Nat) (hfuel : nWrites e (chainTxs e l2 ++ pend) key + 1 ≤ fuel) :
     snapshotGet e S confH hB key fuel = curVer (replayChain e l1 g) key := by
+  have hall : RunV e (chainTxs e l1 ++ (chainTxs e l2 ++ pend)) (curVer g) := by
+    rw [← List.append_assoc, ← chainTxs_append]
+    refine (RunV_append e _ _ _).mpr ⟨hvalid, ?_⟩
+    rw [← replayChain_view]
+    exact hrun
   rw [chainTxs_append, RunV_append] at hvalid
   obtain ⟨v1, v2⟩ := hvalid
   have hsplit : curVer (replayChain e (l1 ++ l2) g) = runV e (chainTxs e l2) (curVer (replayChain e l1 g)) := by
@@ -74,15 +78,86 @@ theorem snapshot_chain_core (e : Env) (hids : EnvIds e) (g : St) (l1 l2 : List N
     ((RunV_append e _ _ _).mpr ⟨v2, hrun⟩) _ fuel hfuel
   · intro v hv
     rw [replayChain_view] at hv
-    rcases runV_origin e hids _ _ key v hv with h0 | ⟨h1, _⟩
+    rcases runV_origin e hids _ _ key v hv with h0 | ⟨h1, hw⟩
     · rw [hg key] at h0; cases h0
-    · obtain ⟨b, hb, hib⟩ := (mem_chainTxs e l1 v.1).mp h1
-      exact ⟨fun hm => hfresh _ hm h1, _, hconfH b (List.mem_append_left _ hb) _ hib, hlow b hb⟩
-  · intro i hi _
+    · refine ⟨fun hm => ?_, hlowH _ h1 hw⟩
+      have h0 : Links e key (curVer g key) [] := by rw [hg key]; exact Links.nil
+      exact writer_once_split e hids key (curVer g) [] h0 _ _ v.1 hall hw h1 (List.mem_append_right _ hm)
+  · intro i hi hw
     rcases List.mem_append.mp hi with hi | hi
-    · obtain ⟨b, hb, hib⟩ := (mem_chainTxs e l2 i).mp hi
-      exact Or.inr ⟨_, hconfH b (List.mem_append_right _ hb) _ hib, hhigh b hb⟩
+    · exact Or.inr (hhighH i hi hw)
     · exact Or.inl hi
+
+/-- the same with a height table that gives every transaction of the chain the height of its block -/
+theorem snapshot_chain_core (e : Env) (hids : EnvIds e) (g : St) (l1 l2 : List Nat) (confH : Nat → Option Nat)
+    (hB : Nat) (pend : List Nat) (S : St)
+    (hg : ∀ key, curVer g key = none)
+    (hvalid : RunV e (chainTxs e (l1 ++ l2)) (curVer g))
+    (hconfH : ∀ b ∈ l1 ++ l2, ∀ i ∈ (e.block b).txs, confH i = some (e.block b).height)
+    (hlow : ∀ b ∈ l1, (e.block b).height ≤ hB) (hhigh : ∀ b ∈ l2, hB < (e.block b).height)
+    (hpool : S.pool = pend)
+    (hrun : RunV e pend (curVer (replayChain e (l1 ++ l2) g)))
+    (hview : curVer S = runV e pend (curVer (replayChain e (l1 ++ l2) g)))
+    (key : String) (fuel : Nat) (hfuel : nWrites e (chainTxs e l2 ++ pend) key + 1 ≤ fuel) :
+    snapshotGet e S confH hB key fuel = curVer (replayChain e l1 g) key := by
+  apply snapshot_chain_writers e hids g l1 l2 confH hB pend S key hg hvalid _ _ hpool hrun hview fuel hfuel
+  · intro i hi _
+    obtain ⟨b, hb, hib⟩ := (mem_chainTxs e l1 i).mp hi
+    exact ⟨_, hconfH b (List.mem_append_left _ hb) _ hib, hlow b hb⟩
+  · intro i hi _
+    obtain ⟨b, hb, hib⟩ := (mem_chainTxs e l2 i).mp hi
+    exact ⟨_, hconfH b (List.mem_append_right _ hb) _ hib, hhigh b hb⟩
+
+/-- a transaction of `l1` is confirmed by `confOf (l1 ++ l2)` in a block of `l1` -/
+theorem confOf_low (e : Env) (l1 l2 : List Nat) (hB : Nat) (hlow : ∀ b ∈ l1, (e.block b).height ≤ hB) (i : Nat)
+    (hi : i ∈ chainTxs e l1) : ∃ bh, confOf e (l1 ++ l2) i = some bh ∧ bh ≤ hB := by
+  obtain ⟨b, hb, hib⟩ := (mem_chainTxs e l1 i).mp hi
+  unfold confOf
+  rw [List.find?_append]
+  cases hf : l1.find? (fun bi => (e.block bi).txs.contains i) with
+  | none =>
+    have := List.find?_eq_none.mp hf b hb
+    simp [hib] at this
+  | some x => exact ⟨_, rfl, hlow x (List.mem_of_find?_eq_some hf)⟩
+
+/-- a transaction of `l2` that is not in `l1` is confirmed by `confOf (l1 ++ l2)` in a block of `l2` -/
+theorem confOf_high (e : Env) (l1 l2 : List Nat) (hB : Nat) (hhigh : ∀ b ∈ l2, hB < (e.block b).height) (i : Nat)
+    (hn : i ∉ chainTxs e l1) (hi : i ∈ chainTxs e l2) : ∃ bh, confOf e (l1 ++ l2) i = some bh ∧ hB < bh := by
+  obtain ⟨b, hb, hib⟩ := (mem_chainTxs e l2 i).mp hi
+  unfold confOf
+  rw [List.find?_append]
+  cases hf1 : l1.find? (fun bi => (e.block bi).txs.contains i) with
+  | some x =>
+    exfalso; apply hn
+    exact (mem_chainTxs e l1 i).mpr ⟨x, List.mem_of_find?_eq_some hf1, by simpa using List.find?_some hf1⟩
+  | none =>
+    cases hf : l2.find? (fun bi => (e.block bi).txs.contains i) with
+    | none =>
+      have := List.find?_eq_none.mp hf b hb
+      simp [hib] at this
+    | some x => exact ⟨_, rfl, hhigh x (List.mem_of_find?_eq_some hf)⟩
+
+/-- **for every block up to the tip, with the ledger's own height table `confOf` of the chain** — nothing is assumed
+about repeated transactions or about what is pending: a writer of the key sits only once in the whole history -/
+theorem snapshot_chain_confOf (e : Env) (hids : EnvIds e) (g : St) (l1 l2 : List Nat) (hB : Nat) (pend : List Nat)
+    (S : St) (key : String)
+    (hg : ∀ key, curVer g key = none)
+    (hvalid : RunV e (chainTxs e (l1 ++ l2)) (curVer g))
+    (hlow : ∀ b ∈ l1, (e.block b).height ≤ hB) (hhigh : ∀ b ∈ l2, hB < (e.block b).height)
+    (hpool : S.pool = pend)
+    (hrun : RunV e pend (curVer (replayChain e (l1 ++ l2) g)))
+    (hview : curVer S = runV e pend (curVer (replayChain e (l1 ++ l2) g)))
+    (fuel : Nat) (hfuel : nWrites e (chainTxs e l2 ++ pend) key + 1 ≤ fuel) :
+    snapshotGet e S (confOf e (l1 ++ l2)) hB key fuel = curVer (replayChain e l1 g) key := by
+  apply snapshot_chain_writers e hids g l1 l2 _ hB pend S key hg hvalid _ _ hpool hrun hview fuel hfuel
+  · intro i hi _
+    exact confOf_low e l1 l2 hB hlow i hi
+  · intro i hi hw
+    apply confOf_high e l1 l2 hB hhigh i _ hi
+    intro h1
+    have h0 : Links e key (curVer g key) [] := by rw [hg key]; exact Links.nil
+    rw [chainTxs_append] at hvalid
+    exact writer_once_split e hids key (curVer g) [] h0 _ _ i hvalid hw h1 hi
 
 /-- `confOf` on a chain without repeated transactions gives every transaction the height of its block -/
 theorem confOf_chain (e : Env) (chain chain' : List Nat) (h : TxOnce e chain) (hperm : ∀ b, b ∈ chain' → b ∈ chain) :
@@ -100,6 +175,15 @@ theorem confOf_le (e : Env) (chain : List Nat) (hB : Nat) (h : ∀ b ∈ chain, 
     simp only [Option.map_some, Option.some.injEq] at hi
     rw [← hi]
     exact h x (List.mem_of_find?_eq_some hf)
+
+/-- the height table of a chain extends that of every prefix -/
+theorem confOf_prefix (e : Env) (l1 l2 : List Nat) (i bh : Nat) (h : confOf e l1 i = some bh) :
+    confOf e (l1 ++ l2) i = some bh := by
+  unfold confOf at h ⊢
+  rw [List.find?_append]
+  cases hf : l1.find? (fun bi => (e.block bi).txs.contains i) with
+  | none => rw [hf] at h; cases h
+  | some x => rw [hf] at h; exact h
 
 -- ------------------------------------------------------------------ the invariant along a chain
 
